@@ -14,7 +14,7 @@ THEOREMS = ['C14_relabel_injective_invariant', 'C14_relabel_canonical', 'C14_inj
             'C14_modularity_dir_partition_only', 'C14_modularity_und_sign_partition_only',
             'C14_agreement_counts', 'C14_agreement_partition_only', 'C14_partition_distance_symmetric',
             'C14_partition_distance_partition_only', 'C14_partition_distance_same', 'C14_VIn_nonneg',
-            'C14_VIn_zero_same', 'C14_MIn_one_same', 'C14_VIn_range_partial', 'C14_ci2ls_ls2ci_inverse',
+            'C14_VIn_zero_same', 'C14_MIn_one_same', 'C14_partition_distance_exactly_when', 'C14_VIn_range_partial', 'C14_ci2ls_ls2ci_inverse',
             'C14_ci2ls_blocks']
 RULE = ('every set partition of n<=5 nodes (n<=6 thorough), written with restricted-growth labels 1..K, x the relabellings '
         '{zero-based, negative, gaps, large (2^40+), permuted block order, random injective mix} x random matrices with small '
@@ -354,9 +354,9 @@ def run(ctx):
         same = same_partition(cx, cy)
         trivial = n == 1 or (len(set(cx)) == 1 and len(set(cy)) == 1)
         if trivial:
-            # H(X) + H(Y) = 0 (or log n = 0): the quotients are 0/0
-            if not (same and vin == 0 and mi == 1):
-                ctx.fail('partition_distance:trivial-partition', 'identical one-block partitions do not give (VIn, MIn) = (0, 1): got (%r, %r)' % (vin, mi), case)
+            # H(X) + H(Y) = 0 (or log n = 0): the quotients would be 0/0; the partitions coincide (fix b5787bf)
+            ctx.check(same and vin == 0 and mi == 1, 'partition_distance:trivial-partition',
+                      'identical one-block partitions do not give (VIn, MIn) = (0, 1): got (%r, %r)' % (vin, mi), case)
         else:
             wv, wm = o_pdist(cx, cy)
             ctx.check(close(vin, wv) and close(mi, wm), 'partition_distance:formula', 'differs from the entropies of the block sizes: got (%r,%r) want (%r,%r)' % (vin, mi, wv, wm), case)
@@ -476,10 +476,14 @@ def run(ctx):
                 ctx.mismatch(fn, 'model and implementation differ', case, mv, impl)
         elif kind == 'pd':
             vin, mi, trivial = impl
+            if m[0] != trivial:
+                ctx.mismatch(fn, 'model and harness disagree on the early-return branch', case, m[0], trivial); continue
             if trivial:
+                if not (vin == 0 and mi == 1):
+                    ctx.mismatch(fn, 'model returns (0, 1) on the early-return branch', case, [0, 1], [vin, mi])
                 continue
             n = len(case['cx'])
-            hs = [[dec_q(x) for x in h] for h in m]
+            hs = [[dec_q(x) for x in h] for h in m[1:]]
             H = [-sum(float(c / n) * math.log(float(c / n)) for c in h) for h in hs]
             ok = all(sum(h) == n and all(c > 0 for c in h) for h in hs)
             mvin = (2 * H[2] - H[0] - H[1]) / math.log(n)
